@@ -101,8 +101,10 @@ def _prune_cache(keep):
     if not d.exists():
         return
     ents = sorted([p for p in d.iterdir() if p.is_dir()], key=lambda p: p.stat().st_mtime)
+    now = time.time()
     for p in ents[:-10]:
-        if p.name != keep:
+        # never remove a directory another (concurrent) run may still be using
+        if p.name != keep and now - p.stat().st_mtime > 3600:
             shutil.rmtree(p, ignore_errors=True)
 
 
